@@ -52,6 +52,22 @@ CLAIMED = {
              "are replayed on the code.",
         note=CONC_NOTE, design="7/C06",
         technique="TLA+ spec + TLC model checking; schedule enumeration on the code with TLC trace validation; replay"),
+    "C09": dict(
+        text="When.tla models the combinator (per-input SetCallback, inline Consume + DecRef for inputs that are already "
+             "complete, the counter, every strategy's atomic protocol and destructor) for All<None|FirstFail> and "
+             "Join<None|FirstFail>; TLC checks exactly-once output, the aggregate in input order for every completion "
+             "order, 'not before the last input' / 'as soon as the first failure', first-winner real-time constraints and "
+             "release-exactly-once exhaustively for n = 2 (n = 3 thorough); recorded executions of WhenAll / Join (static and "
+             "dynamic forms) are validated against it with logical-to-address binding inferred by TLC.",
+        note=CONC_NOTE + "; unique inputs", design="7/C09",
+        technique="TLA+ spec + TLC model checking; schedule enumeration on the code with TLC trace validation"),
+    "C10": dict(
+        text="When.tla, strategies Any<None> (_done flag), Any<FirstFail> (3-state word + saved error published by the "
+             "destructor) and Any<LastFail> (2*remaining|done parity word): TLC checks exactly-once output, the winner per "
+             "policy incl. real-time first/last constraints and release-exactly-once for all outcome patterns and "
+             "interleavings (n = 2, n = 3 thorough); recorded executions of WhenAny are validated against it.",
+        note=CONC_NOTE + "; unique inputs", design="7/C10",
+        technique="TLA+ spec + TLC model checking; schedule enumeration on the code with TLC trace validation"),
     "C11": dict(
         text="Wait.tla models WaitRange (registration, SubEqual of the already-ready futures, timed and untimed event wait, "
              "relaxed Reset per future, SubEqual(reset_count), final wait) and the producers' side at yaclib_std-operation "
